@@ -46,7 +46,12 @@ func (api *PcApi) HandleLogsStream(c *gin.Context) {
 						Message:     message,
 						ProcessName: procName,
 					}
-					logChan <- msg
+					select {
+					case logChan <- msg:
+					case <-done:
+						// the client is gone, nobody reads the channel any more
+						return
+					}
 				}
 				if !follow {
 					chanCloseMtx.Lock()
@@ -65,7 +70,13 @@ func (api *PcApi) HandleLogsStream(c *gin.Context) {
 				if isChannelClosed {
 					return 0, nil
 				}
-				logChan <- msg
+				select {
+				case logChan <- msg:
+				case <-done:
+					// the client is gone: the line must neither block nor hit a closed channel
+					// until the observer is unsubscribed
+					return 0, nil
+				}
 				return len(message), nil
 			},
 			endOffset)
@@ -106,7 +117,6 @@ func (api *PcApi) handleLog(ws *websocket.Conn, procName string, connector *pclo
 			}
 		case <-done:
 			log.Warn().Msg("Socket closed remotely")
-			close(logChan)
 			return
 		}
 
